@@ -120,11 +120,20 @@ def fromJsonH (j : Json) : R Json := do
     | _ => return jObj [("ok", jStr k)]
   | .error e => return jObj [("err", jStr e)]
 
+def getLimits (j : Json) : R (StageLimits Float) := do
+  return { pMax := ← fF j "p_max", gainFlatmax := ← fF j "gain_flatmax", gainMin := ← fF j "gain_min" }
+
+/-- `_update_dual_stage`: limits of a dual-stage entry from its two stage entries -/
+def dualH (j : Json) : R Json := do
+  match updateDualStage (← getLimits (← fld j "pre")) (← getLimits (← fld j "boost")) (← fF j "gain_min") with
+  | none => return jObj [("error", jStr "EquipmentConfigError")]
+  | some d => return jObj [("p_max", jF d.pMax), ("gain_flatmax", jF d.gainFlatmax), ("gain_min", jF d.gainMin)]
+
 def clampH (j : Json) : R Json := do
   return jF (callSeq (← fF j "set") (← fF j "p_max") (← fList getF j "pins"))
 
 def handlers : List (String × Handler) :=
   [("c04.call", callH), ("c04.estimate", estimateH), ("c04.nf", nfH), ("c04.fromjson", fromJsonH),
-   ("c04.clamp", clampH), ("c04.multi", multiH)]
+   ("c04.clamp", clampH), ("c04.multi", multiH), ("c04.dual", dualH)]
 
 end Gnpy.Drv.C04
